@@ -288,7 +288,7 @@ func (s *Schema) startsWith(den string, code uint32) bool {
 	if t.K == KPtr {
 		t = t.Elem
 	}
-	if t.K != KStruct && t.K != KByteArr {
+	if t.K != KStruct && t.K != KByteArr && t.K != KCustom {
 		return false
 	}
 
